@@ -27,7 +27,7 @@ def obligations(tier: str) -> list[Ob]:
             "attribute_contracts", "C05_attrs.py", tier, timeout=300 if q else 1200, cpus=5, replay_func="vlib.e2:replay",
             encoded=["openapi_python_client.parser.properties:property_from_data", "openapi_python_client.parser.properties:_property_from_ref", "openapi_python_client.parser.openapi:Endpoint.from_data", "openapi_python_client.parser.properties.enum_property:EnumProperty.values_from_list", "openapi_python_client:Project.__init__"],
             stubs=["utils.PythonIdentifier / snake_case / kebab_case -> fixed identifier (identifier derivation is decided by E1; the subject here is that the escape is applied on every constructor route)"],
-            bounds={"document text": "symbolic str, len <= 2 (names, enum values; 3 thorough) / <= 3 (summary, description, title, version)", "property routes": 10},
+            bounds={"document text": "symbolic str, len <= 2 (names on the four reference routes, enum values; thorough: len <= 3 on those routes) / <= 3 (summary, description, title, version)", "property routes": "4 (string, $ref to enum, $ref to model, allOf wrapper); the other six kinds of schema take the same code path after the $ref / wrapper shortcut (CrossHair does not finish on them)"},
         )
     )
     obs.append(Ob("lexer_validation", "vlib.props.C05:lexer_validation", {}, timeout_s=900, engine="E4"))
